@@ -95,7 +95,8 @@ class Check:
         out = os.path.join(self.bdir, name + ".json")
         last = os.path.join(self.bdir, name + ".last")
         p = subprocess.run(self.worker_cmd(out, ["--lastcase", last] + extra), cwd=ROOT, env=self.env,
-                           stdout=subprocess.PIPE, stderr=subprocess.PIPE, text=True, timeout=timeout)
+                           stdout=subprocess.PIPE, stderr=subprocess.PIPE, text=True, errors="replace",
+                           timeout=timeout, preexec_fn=_limit_stack)
         res = None
         if p.returncode in (0, 3) and os.path.isfile(out):
             res = json.load(open(out))
@@ -199,7 +200,7 @@ class Check:
         for k, v in s["excluded"].items():
             self.merged.exclude(k, v)
         self.merged.nontrivial.update(s["nontrivial"])
-        for smp in s["samples"]:
+        for smp in s["samples"][-3:]:
             if len(self.merged.samples) < 8:
                 self.merged.samples.append(smp)
 
@@ -214,7 +215,8 @@ class Check:
             cmd = self.worker_cmd(out, ["--seed", str(derive_seed(self.seed, self.pid, i)),
                                         "--examples", str(b["examples"]), "--lastcase", last,
                                         "--index", str(i)])
-            p = subprocess.Popen(cmd, cwd=ROOT, env=self.env, stdout=subprocess.DEVNULL, stderr=errf)
+            p = subprocess.Popen(cmd, cwd=ROOT, env=self.env, stdout=subprocess.DEVNULL, stderr=errf,
+                                 preexec_fn=_limit_stack)
             procs.append((i, p, out, last, errf))
         fuzz = self.start_fuzzers(plans)
         # collect workers
@@ -280,11 +282,17 @@ class Check:
                 use_seeds = not (plan.get("empty_corpus_procs", 0) > j)
                 if use_seeds:
                     k = 0
+                    prefixes = plan.get("seed_prefixes") or [b""]
                     for cdir in plan.get("corpus", []):
                         for f in sorted(glob.glob(os.path.join(cdir, "*"))):
-                            if os.path.isfile(f):
-                                shutil.copy(f, os.path.join(corpus, "s%04d" % k))
+                            if os.path.isfile(f) and os.path.getsize(f) <= plan.get("max_len", 512):
+                                with open(os.path.join(corpus, "s%04d" % k), "wb") as g:
+                                    g.write(prefixes[(k + j) % len(prefixes)] + open(f, "rb").read())
                                 k += 1
+                    for blob in plan.get("seeds", []):
+                        with open(os.path.join(corpus, "g%04d" % k), "wb") as g:
+                            g.write(blob)
+                        k += 1
                 statsf = os.path.join(d, "stats.json")
                 cmd = [exe, corpus, "-runs=%d" % plan["runs"], "-seed=%d" % derive_seed(self.seed, self.pid, 1000 + idx),
                        "-max_len=%d" % plan.get("max_len", 512), "-timeout=%d" % plan.get("timeout", 10),
@@ -298,6 +306,7 @@ class Check:
                 env["ASAN_OPTIONS"] = "detect_leaks=1:exitcode=86:allocator_may_return_null=1:handle_segv=1"
                 env["UBSAN_OPTIONS"] = "print_stacktrace=1:halt_on_error=1:exitcode=86"
                 env["VERIF_FZ_STATS"] = statsf
+                env["VERIF_FZ_PROP"] = self.pid
                 logf = open(os.path.join(d, "log"), "w")
                 p = subprocess.Popen(cmd, cwd=d, env=env, stdout=logf, stderr=subprocess.STDOUT,
                                      preexec_fn=_limit_stack)
@@ -368,6 +377,7 @@ class Check:
         env = dict(os.environ)
         env["ASAN_OPTIONS"] = "detect_leaks=1:exitcode=86:allocator_may_return_null=1:handle_segv=1"
         env["UBSAN_OPTIONS"] = "print_stacktrace=1:halt_on_error=1:exitcode=86"
+        env["VERIF_FZ_PROP"] = self.pid
         p = subprocess.run([exe, path], cwd=cwd, env=env, stdout=subprocess.PIPE, stderr=subprocess.STDOUT,
                            text=True, errors="replace", timeout=300, preexec_fn=_limit_stack)
         return p.returncode, p.stdout
@@ -389,7 +399,7 @@ class Check:
         try:
             subprocess.run([exe, "-minimize_crash=1", "-runs=20000", "-exact_artifact_path=" + minp, art],
                            cwd=r["dir"], stdout=subprocess.DEVNULL, stderr=subprocess.DEVNULL, timeout=120,
-                           env=dict(os.environ, ASAN_OPTIONS="detect_leaks=1:exitcode=86", UBSAN_OPTIONS="halt_on_error=1:exitcode=86"),
+                           env=dict(os.environ, ASAN_OPTIONS="detect_leaks=1:exitcode=86", UBSAN_OPTIONS="halt_on_error=1:exitcode=86", VERIF_FZ_PROP=self.pid),
                            preexec_fn=_limit_stack)
         except subprocess.TimeoutExpired:
             pass
